@@ -296,6 +296,9 @@ func (a *Analysis) recvRoot(fn *FuncInfo) *Term {
 		case "rtt":
 			return mkTerm(KField, "ctx.rttEstimates")
 		}
+		if loc, ok := a.Prog.HolderType[fn.Recv]; ok {
+			return mkTerm(KField, loc) // methods of a transparent holder struct work on its one instance
+		}
 	}
 	return rootRecv
 }
@@ -1013,6 +1016,29 @@ func (w *Walker) afterScalarWrite(field, val *Term, st *State) {
 
 // write applies a write to a location: site record, kills, fact transforms.
 func (w *Walker) write(loc string, kind int, idx, val *Term, st *State, at ast.Node) {
+	if subs, ok := w.A.Prog.HolderSubs[loc]; ok && idx == nil {
+		// the whole holder struct is replaced: each of its fields is written (with its component of a literal value)
+		for i, sf := range subs {
+			var cv *Term
+			if val != nil && val.K == KLocal && len(val.Fields) == 0 && len(val.Args) == 0 {
+				cv = zeroTerm(sf.Type()) // T{}
+			} else if val != nil && len(val.Fields) == len(val.Args) && len(val.Args) > 0 {
+				cv = zeroTerm(sf.Type())
+				for j, fnm := range val.Fields {
+					if fnm == sf.Name() {
+						cv = val.Args[j]
+					}
+				}
+			} else if val != nil && len(val.Args) == len(subs) && len(val.Fields) == 0 {
+				cv = val.Args[i]
+			}
+			name := w.A.Prog.fieldRole(sf, sf.Name())
+			w.write("ctx."+name, KillAny, nil, cv, st, at)
+			ft := mkTerm(KField, "ctx."+name)
+			w.afterScalarWrite(ft, cv, st)
+		}
+		return
+	}
 	if isStableLoc(loc) && w.Fn.Pkg.PkgPath == modPath {
 		kind = KillStable
 	}
@@ -1283,6 +1309,11 @@ func (w *Walker) cond(e ast.Expr, st *State) (ts, fs []*State) {
 		// inlineable pure predicate?
 		if fn := w.staticCallee(x); fn != nil && w.A.isPurePredicate(fn) && w.depth < 6 {
 			return w.inlinePredicate(x, fn, st)
+		}
+		// the same through a method value / function value of the node's own predicates
+		if fv := w.funcValueOf(ast.Unparen(x.Fun), st); fv != nil && fv.Fn != nil && w.A.isPurePredicate(fv.Fn) && w.depth < 8 &&
+			(fv.Fn.Recv == "DBFT" || fv.Fn.Recv == "Context" || fv.Fn.RecvVar == nil) {
+			return w.inlinePredicate(x, fv.Fn, st)
 		}
 	}
 	// generic boolean value
@@ -1972,6 +2003,11 @@ func (w *Walker) fieldTerm(base *Term, fv *types.Var, name string) *Term {
 		return mk("recv." + name)
 	}
 	if base.K == KField {
+		if w.A.Prog.HolderOf[fv] != nil {
+			if _, isHolder := w.A.Prog.HolderSubs[base.Name]; isHolder {
+				return mk("ctx." + name) // a field of a transparent holder struct (holders.go)
+			}
+		}
 		t := mkTerm(KField, base.Name+"."+name)
 		t.Unsigned = isUnsigned(fv.Type())
 		return t
